@@ -11,6 +11,7 @@ import ALV.Lemmas.C17Shutdown
 import ALV.Lemmas.C17Paused
 import ALV.Lemmas.C17Wait
 import ALV.Lemmas.C17FineLive
+import ALV.Lemmas.C17Rec
 import ALV.Common.Audit
 
 namespace ALV.Props.C17
@@ -22,16 +23,27 @@ def mkSched (l : List Nat) : List Tid := l.map fun n => if n = 0 then Tid.main e
 /-- **C17.1 delivered_prefix** — whatever the schedule and the control history, what a device
 stream has received is a prefix of `chunks(audio)` (in order, nothing duplicated, nothing
 skipped), and it is the whole sequence once the player has left its loop without having been
-stopped. -/
+stopped — for an iterable that raises at its end: all the chunks that were completed before the
+exception (`playChunks`: the first `|audio| / cs` chunks). -/
 theorem delivered_prefix {cfg : Cfg} {script : List Cmd} {s : State} (h : Reach cfg script s)
     (k : Nat) (p : Player) (hp : s.players[k]? = some p) :
     p.written <+: chunksOf p.cs p.audio ∧
-    (afterLoop p.pc = true → p.halting = false → p.written = chunksOf p.cs p.audio) := by
+    (afterLoop p.pc = true → p.halting = false → p.written = playChunks p.cs p.audio p.fail) ∧
+    (afterLoop p.pc = true → p.halting = false → p.fail = false →
+      p.written = chunksOf p.cs p.audio) := by
   obtain ⟨h0, h1, _, h3⟩ := ploc_reach h k p hp
-  refine ⟨⟨p.todo, by rw [h1, h0]⟩, fun ha hh => ?_⟩
-  rcases h3 ha with ht | ht
-  · rw [← h0, ← h1, ht, List.append_nil]
-  · rw [hh] at ht; cases ht
+  have hpre : p.written <+: playChunks p.cs p.audio p.fail := ⟨p.todo, by rw [h1, h0]⟩
+  have hfull : afterLoop p.pc = true → p.halting = false →
+      p.written = playChunks p.cs p.audio p.fail := by
+    intro ha hh
+    rcases h3 ha with ht | ht
+    · rw [← h0, ← h1, ht, List.append_nil]
+    · rw [hh] at ht; cases ht
+  refine ⟨hpre.trans ?_, hfull, fun ha hh hf => ?_⟩
+  · unfold playChunks; split
+    · exact List.take_prefix _ _
+    · exact List.prefix_refl _
+  · rw [hfull ha hh, hf]; simp [playChunks]
 
 /-- **C17.1b chunks_are_padded_audio** — `chunks(audio)` consists of chunks of exactly `cs`
 samples whose concatenation is the audio followed by zero padding to a chunk boundary (fewer than
@@ -47,14 +59,39 @@ theorem chunks_are_padded_audio (cs : Nat) (hs : 0 < cs) (audio : List Int) :
 delivered exactly the audio followed by the zero padding, as consecutive chunks of `cs` samples. -/
 theorem delivered_complete {cfg : Cfg} {script : List Cmd} {s : State} (h : Reach cfg script s)
     (k : Nat) (p : Player) (hp : s.players[k]? = some p) (hcs : 0 < p.cs)
-    (ha : afterLoop p.pc = true) (hh : p.halting = false) :
+    (ha : afterLoop p.pc = true) (hh : p.halting = false) (hf : p.fail = false) :
     p.written.flatten = p.audio ++ List.replicate (padLen p.cs p.audio.length) 0 ∧
     ∀ c ∈ p.written, c.length = p.cs := by
-  have hw := (delivered_prefix h k p hp).2 ha hh
+  have hw := (delivered_prefix h k p hp).2.2 ha hh hf
   rw [hw]
   exact ⟨(chunks_are_padded_audio p.cs hcs p.audio).1, (chunks_are_padded_audio p.cs hcs p.audio).2.1⟩
 
 example : chunksOf 2 [1, 2, 3] = [[1, 2], [3, 0]] := by decide
+
+/-- **C17.1d delivered_failing** — a played iterable that raises after its samples (the repaired
+`run`: the exception leaves the loop through `finally`): the device stream of a player that was
+not stopped has received exactly the samples of the chunks that were complete before the exception,
+`audio[: |audio| / cs * cs]`, as chunks of `cs` samples — no padding, nothing of the partly filled
+chunk, nothing lost before it. -/
+theorem delivered_failing {cfg : Cfg} {script : List Cmd} {s : State} (h : Reach cfg script s)
+    (k : Nat) (p : Player) (hp : s.players[k]? = some p) (hcs : 0 < p.cs)
+    (ha : afterLoop p.pc = true) (hh : p.halting = false) (hf : p.fail = true) :
+    p.written.flatten = p.audio.take (p.audio.length / p.cs * p.cs) ∧
+    ∀ c ∈ p.written, c.length = p.cs := by
+  have hw := (delivered_prefix h k p hp).2.1 ha hh
+  have hall := (chunks_are_padded_audio p.cs hcs p.audio).2.1
+  rw [hw, hf]
+  simp only [playChunks, if_true]
+  refine ⟨?_, fun c hc => hall c (List.mem_of_mem_take hc)⟩
+  rw [flatten_take_uniform p.cs _ _ hall, (chunks_are_padded_audio p.cs hcs p.audio).1]
+  exact List.take_append_of_le_length (Nat.div_mul_le_self _ _)
+
+/-- non-vacuity: `play(it, chunk_size=2)` with an iterable that yields 101, 102, 103 and raises, then
+`close()` (`wait=True`): a complete coarse run; the stream holds `[[101, 102]]`, everything is shut -/
+example : let s := (runSched ⟨true, true, [true]⟩ (init [.play [101, 102, 103] 2, .close])
+      (mkSched [0,0,0,0,0,0,0,0,0, 1,1,1,1,1,1,1,1,1, 0,0,0,0,0])).1
+    (s.log = [.playOk 0, .closeOk [false] 0] ∧ s.players.map (·.written) = [[[101, 102]]] ∧
+      s.players.map (·.fail) = [true] ∧ allDone s = true ∧ closedAfter s = true) := by decide
 
 /-- **C17.2 terminate_once** — the backend is terminated at most once, whatever the schedule
 and however often `close` is called. -/
@@ -87,7 +124,7 @@ theorem play_after_close_raises (cfg : Cfg) (s s1 s2 : State) (a : List Int) (c 
 
 /-- non-vacuity: `close ; play` reaches the raising branch (default schedule of the control
 script alone) -/
-example : ((runSched ⟨false, false⟩ (init [.close, .play [1, 2, 3] 2])
+example : ((runSched ⟨false, false, []⟩ (init [.close, .play [1, 2, 3] 2])
     (List.replicate 9 Tid.main)).1.log) = [.closeOk [] 0, .playThreadError] := by decide
 
 /-- **C17.3 closed_after** — once the backend has been terminated (which only `close` does, as its
@@ -106,7 +143,7 @@ theorem closed_after_close {cfg : Cfg} {script : List Cmd} {s : State} (h : Reac
 
 /-- non-vacuity of `closed_after_close`: a full run of `play ; close` under a schedule with
 context switches ends with `close` returned and everything shut -/
-example : let s := (runSched ⟨false, false⟩ (init [.play [101, 102, 103] 2, .close])
+example : let s := (runSched ⟨false, false, []⟩ (init [.play [101, 102, 103] 2, .close])
       ([0,0,0,0,0,0,0,0,0,0,0,1,1,1,1,0,1,1,1,1,1,0,0,0,0,0].map
         fun n => if n = 0 then Tid.main else Tid.player (n - 1))).1
     (Ev.closeOk [false] 0 ∈ s.log ∧ closedAfter s = true ∧ s.mpc = .done) := by decide
@@ -165,7 +202,7 @@ theorem lock_order {cfg : Cfg} {script : List Cmd} {s : State} (hr : Reach cfg s
         cases p.pc <;> simp [wantsPlayer, selfHold] <;> intro e <;> subst e <;> simp [lockRank]
 
 /-- non-vacuity: a player at `thread_finished` holds its own lock and wants the manager lock -/
-example : let s := (runSched ⟨true, false⟩ (init [.play [101] 2, .close])
+example : let s := (runSched ⟨true, false, []⟩ (init [.play [101] 2, .close])
       ([0,0,0,0,0,0,0,1,1,1,1,1].map fun n => if n = 0 then Tid.main else Tid.player (n - 1))).1
     (wants s (.player 0) = some .mlock ∧ (s.players[0]?).map (·.lk) = some (some (.player 0))) := by
   decide
@@ -219,8 +256,8 @@ theorem steps_bounded_explicit (cfg : Cfg) (script : List Cmd) (sched : List Tid
 
 /-- non-vacuity: a schedule of 30 steps that is executed to its end (the bound is 52) -/
 example : let sched := mkSched ([0,0,0,0,0,0,0,0,0,0,0,0,1,1,1,1,0,0,0] ++ [1,1,1,1,1,1,0,0,0,0,0])
-    (runSched ⟨false, true⟩ (init [.play [101] 2, .ctl .pause 0, .close]) sched).2 = [] ∧
-    sched.length = 30 ∧ stepBound ⟨false, true⟩ [.play [101] 2, .ctl .pause 0, .close] = 52 := by
+    (runSched ⟨false, true, []⟩ (init [.play [101] 2, .ctl .pause 0, .close]) sched).2 = [] ∧
+    sched.length = 30 ∧ stepBound ⟨false, true, []⟩ [.play [101] 2, .ctl .pause 0, .close] = 52 := by
   decide
 
 /-- **C17.8c maximal_run_exists** — every executed schedule can be continued to a terminal state
@@ -250,9 +287,9 @@ theorem terminal_states {cfg : Cfg} {script : List Cmd} {s : State} (hr : Reach 
 /-- non-vacuity: the second alternative is reachable with the repaired `stop()` too — by the
 script's own `join` of a player it has paused (`th.pause(); th.join()` blocks on the real code
 as well: scheduler run `play ; pause ; join ; close` ends in `0:th0.join:0,1:go0.wait:0`) -/
-example : let s := (runSched ⟨false, true⟩ (init [.play [101] 2, .ctl .pause 0, .join 0, .close])
+example : let s := (runSched ⟨false, true, []⟩ (init [.play [101] 2, .ctl .pause 0, .join 0, .close])
       (mkSched [0,0,0,0,0,1,0,0,0,1,1,1,0])).1
-    (terminal ⟨false, true⟩ s = true ∧ s.mpc = .jJoin 0 ∧ pcAt s 0 = some .goWait) := by decide
+    (terminal ⟨false, true, []⟩ s = true ∧ s.mpc = .jJoin 0 ∧ pcAt s 0 = some .goWait) := by decide
 
 /-- **C17.10 close_never_blocks_fixed** — with the repaired `stop()` and `wait=False` no run
 ends inside `close`, whatever was paused, for EVERY script: a run can only get stuck in a `join`
@@ -281,7 +318,7 @@ theorem close_returns_fixed (cfg : Cfg) (script : List Cmd) (s : State) (hf : cf
   · exact absurd hmem (hj i)
 
 /-- non-vacuity: `play ; pause ; close` under the schedule on which the code as it was deadlocks -/
-example : (runSched ⟨false, true⟩ (init [.play [101] 2, .ctl .pause 0, .close])
+example : (runSched ⟨false, true, []⟩ (init [.play [101] 2, .ctl .pause 0, .close])
     (mkSched ([0,0,0,0,0,0,0,0,0,0,0,0,1,1,1,1,0,0,0] ++ [1,1,1,1,1,1,0,0,0,0,0]))).1.mpc = .done :=
   close_returns_fixed _ _ _ rfl rfl (by simp) (reach_runSched _ Reach.init) (by decide)
 
@@ -298,7 +335,7 @@ theorem close_returns_no_pause (cfg : Cfg) (script : List Cmd) (s : State) (hn :
   exact allDone_of_done hr ht hd (fun k p hp hpc => absurd hpc (np k p hp).noWait)
 
 /-- non-vacuity: two players, `stop` of one, `join` of the other, `wait=True`, code as it was -/
-example : allDone (runSched ⟨true, false⟩
+example : allDone (runSched ⟨true, false, []⟩
       (init [.play [101, 102] 1, .play [201] 1, .ctl .stop 0, .join 1, .close])
       (mkSched [0,0,0,0,0,1,0,0,0,1,1,1,0,0,1,2,2,2,0,0,0,2,2,2,0,1,1,2,2,1,0,0,1,1,0,0,0,0])).1 = true :=
   close_returns_no_pause _ _ _ (by intro i h; simp at h) (reach_runSched _ Reach.init) (by decide)
@@ -345,11 +382,11 @@ theorem close_returns_wait_checked (cfg : Cfg) (script : List Cmd) (s : State)
 
 /-- non-vacuity: `wait=True`, a player paused and resumed before `close`; and the check rejects
 the script of known finding D10b -/
-example : (runSched ⟨true, true⟩ (init [.play [101, 102, 103] 2, .ctl .pause 0, .ctl .resume 0, .close])
+example : (runSched ⟨true, true, []⟩ (init [.play [101, 102, 103] 2, .ctl .pause 0, .ctl .resume 0, .close])
     (mkSched [0,0,0,0,0,1,0,0,0,1,1,1,0,0,0,1,1,1,0,0,0,1,1,1,0,1,1,1,0,0,0,0,0])).1.mpc = .done :=
   close_returns_wait_checked _ _ _ rfl (by decide) (by simp) (reach_runSched _ Reach.init) (by decide)
 
-example : closeUnpaused ⟨true, true⟩ [.play [101] 2, .ctl .pause 0, .close] = false := by decide
+example : closeUnpaused ⟨true, true, []⟩ [.play [101] 2, .ctl .pause 0, .close] = false := by decide
 
 /-- **C17.13 shutdown** — once the control script has finished in a terminal state and the script
 contained a `close`: that `close` has returned, every device stream is closed, `_threads` is
@@ -383,9 +420,9 @@ theorem shutdown_fixed (cfg : Cfg) (script : List Cmd) (hf : cfg.fixed = true)
     exact ⟨hd, after_done hr ht hd hc⟩
 
 /-- non-vacuity of `shutdown_fixed`: a maximal run with a paused player -/
-example : let s := (runSched ⟨false, true⟩ (init [.play [101] 2, .ctl .pause 0, .close])
+example : let s := (runSched ⟨false, true, []⟩ (init [.play [101] 2, .ctl .pause 0, .close])
       (mkSched ([0,0,0,0,0,0,0,0,0,0,0,0,1,1,1,1,0,0,0] ++ [1,1,1,1,1,1,0,0,0,0,0]))).1
-    (terminal ⟨false, true⟩ s = true ∧ Ev.closeOk [false] 0 ∈ s.log ∧ noneAlive s = true) := by
+    (terminal ⟨false, true, []⟩ s = true ∧ Ev.closeOk [false] 0 ∈ s.log ∧ noneAlive s = true) := by
   decide
 
 /-- **C17.13c shutdown_no_pause** — the same for scripts without `pause` calls: both variants of
@@ -413,7 +450,7 @@ theorem shutdown_no_pause (cfg : Cfg) (script : List Cmd) (hn : NoPause script)
 
 /-- non-vacuity of `shutdown_no_pause`: its hypotheses hold on a maximal run of two players
 (`wait=True`, code as it was, `stop` of one and `join` of the other) -/
-example : closedAfter (runSched ⟨true, false⟩
+example : closedAfter (runSched ⟨true, false, []⟩
       (init [.play [101, 102] 1, .play [201] 1, .ctl .stop 0, .join 1, .close])
       (mkSched [0,0,0,0,0,1,0,0,0,1,1,1,0,0,1,2,2,2,0,0,0,2,2,2,0,1,1,2,2,1,0,0,1,1,0,0,0,0])).1 = true :=
   ((shutdown_no_pause _ _ (by intro i h; simp at h) (by simp) _ (by decide)).2 (by decide)).2.2.1
@@ -451,10 +488,10 @@ theorem shutdown_wait_checked (cfg : Cfg) (script : List Cmd) (hf : cfg.fixed = 
   shutdown_wait cfg script hf (unpaused_of_check hu) hj hc sched hrun
 
 /-- non-vacuity of `shutdown_wait_checked` (`wait=True`, pause and resume before `close`) -/
-example : let s := (runSched ⟨true, true⟩
+example : let s := (runSched ⟨true, true, []⟩
       (init [.play [101, 102, 103] 2, .ctl .pause 0, .ctl .resume 0, .close])
       (mkSched [0,0,0,0,0,1,0,0,0,1,1,1,0,0,0,1,1,1,0,0,0,1,1,1,0,1,1,1,0,0,0,0,0])).1
-    (terminal ⟨true, true⟩ s = true ∧ Ev.closeOk [false] 0 ∈ s.log ∧ noneAlive s = true ∧
+    (terminal ⟨true, true, []⟩ s = true ∧ Ev.closeOk [false] 0 ∈ s.log ∧ noneAlive s = true ∧
       (s.players.map (·.written)) = [[[101, 102], [103, 0]]]) := by
   decide
 
@@ -467,7 +504,7 @@ theorem wait_close_delivers_all {cfg : Cfg} {script : List Cmd} {s : State} (hw 
     (hns : ∀ i, Cmd.ctl .stop i ∉ script) (hr : Reach cfg script s)
     (al : List Bool) (n : Nat) (hc : Ev.closeOk al n ∈ s.log)
     (k : Nat) (p : Player) (hp : s.players[k]? = some p) :
-    p.written = chunksOf p.cs p.audio := by
+    p.written = playChunks p.cs p.audio p.fail := by
   have hca := closed_after_close hr al n hc
   have hex : exiting p = true := by
     unfold closedAfter at hca
@@ -475,10 +512,10 @@ theorem wait_close_delivers_all {cfg : Cfg} {script : List Cmd} {s : State} (hw 
     exact (hca.2 p (List.mem_of_getElem? hp)).2
   have hal : afterLoop p.pc = true := by
     revert hex; unfold exiting; cases p.pc <;> simp [afterLoop]
-  exact (delivered_prefix hr k p hp).2 hal ((hn_reach hw hns hr).noHalt k p hp)
+  exact (delivered_prefix hr k p hp).2.1 hal ((hn_reach hw hns hr).noHalt k p hp)
 
 /-- non-vacuity: `wait=True`, pause and resume, three samples in chunks of two -/
-example : let s := (runSched ⟨true, true⟩
+example : let s := (runSched ⟨true, true, []⟩
       (init [.play [101, 102, 103] 2, .ctl .pause 0, .ctl .resume 0, .close])
       (mkSched [0,0,0,0,0,1,0,0,0,1,1,1,0,0,0,1,1,1,0,0,0,1,1,1,0,1,1,1,0,0,0,0,0])).1
     (Ev.closeOk [false] 0 ∈ s.log ∧ s.players.map (·.written) = [[[101, 102], [103, 0]]]) := by
@@ -517,7 +554,7 @@ theorem fine_assembly_own_samples {fc : FCfg} {script : List Cmd} {fs : FState}
   exact ⟨h2, h1, h3, inv.1⟩
 
 /-- script and configuration of the examples: two players, chunk size 2, `wait=True`, no failure -/
-def exFc : FCfg := ⟨⟨true, true⟩, [], false⟩
+def exFc : FCfg := ⟨⟨true, true, []⟩, false⟩
 def exScript : List Cmd := [.play [101, 102, 103] 2, .play [201, 202] 2, .close]
 
 /-- non-vacuity: player 0 is pre-empted after its first pull, player 1 pulls one sample, player 0
@@ -532,39 +569,42 @@ example : (fineRun exFc exScript [0,0,0,0,0,0,0,0,0,0,0,0,0,0, 1,1, 2,2, 1]).asm
 positive), the coarse state carried by ANY reachable state of the fine system is reachable in the
 coarse system with the same script and configuration: a fine step is a coarse step or a stutter
 step (a pull).  Every safety theorem above therefore holds of the fine system. -/
-theorem fine_refines {fc : FCfg} {script : List Cmd} {fs : FState} (hnf : NoFail fc)
+theorem fine_refines {fc : FCfg} {script : List Cmd} {fs : FState} (hsd : Sound fc)
     (hpos : PosCs script) (h : ReachF fc script fs) : Reach fc.cfg script fs.base :=
-  (sim_reach hnf hpos h).1
+  (sim_reach hsd hpos h).1
 
 /-- **C17.16b fine_delivered_prefix** — `delivered_prefix` for the fine system, all schedules -/
-theorem fine_delivered_prefix {fc : FCfg} {script : List Cmd} {fs : FState} (hnf : NoFail fc)
+theorem fine_delivered_prefix {fc : FCfg} {script : List Cmd} {fs : FState} (hsd : Sound fc)
     (hpos : PosCs script) (h : ReachF fc script fs) (k : Nat) (p : Player)
     (hp : fs.base.players[k]? = some p) :
     p.written <+: chunksOf p.cs p.audio ∧
-    (afterLoop p.pc = true → p.halting = false → p.written = chunksOf p.cs p.audio) :=
-  delivered_prefix (fine_refines hnf hpos h) k p hp
+    (afterLoop p.pc = true → p.halting = false → p.written = playChunks p.cs p.audio p.fail) ∧
+    (afterLoop p.pc = true → p.halting = false → p.fail = false →
+      p.written = chunksOf p.cs p.audio) :=
+  delivered_prefix (fine_refines hsd hpos h) k p hp
 
 /-- **C17.16c fine_delivered_complete** — `delivered_complete` for the fine system: a player that
 left its loop un-stopped has delivered its audio followed by the zero padding, in chunks of `cs` -/
-theorem fine_delivered_complete {fc : FCfg} {script : List Cmd} {fs : FState} (hnf : NoFail fc)
+theorem fine_delivered_complete {fc : FCfg} {script : List Cmd} {fs : FState} (hsd : Sound fc)
     (hpos : PosCs script) (h : ReachF fc script fs) (k : Nat) (p : Player)
-    (hp : fs.base.players[k]? = some p) (ha : afterLoop p.pc = true) (hh : p.halting = false) :
+    (hp : fs.base.players[k]? = some p) (ha : afterLoop p.pc = true) (hh : p.halting = false)
+    (hf : p.fail = false) :
     p.written.flatten = p.audio ++ List.replicate (padLen p.cs p.audio.length) 0 ∧
     ∀ c ∈ p.written, c.length = p.cs := by
-  have hr := fine_refines hnf hpos h
-  obtain ⟨hl, hall⟩ := (sim_reach hnf hpos h).2
+  have hr := fine_refines hsd hpos h
+  obtain ⟨hl, hall⟩ := (sim_reach hsd hpos h).2
   have hk : k < fs.asm.length := by have := lt_of_getElem? hp; omega
   have hcs : 0 < p.cs := (hall k p fs.asm[k] hp (List.getElem?_eq_getElem hk)).pos
-  exact delivered_complete hr k p hp hcs ha hh
+  exact delivered_complete hr k p hp hcs ha hh hf
 
 /-- **C17.16d fine_safety** — the other safety clauses for the fine system: backend terminated at
 most once; no backend call PortAudio would refuse; `close`'s assertion holds; and once the backend
 is terminated everything is closed -/
-theorem fine_safety {fc : FCfg} {script : List Cmd} {fs : FState} (hnf : NoFail fc)
+theorem fine_safety {fc : FCfg} {script : List Cmd} {fs : FState} (hsd : Sound fc)
     (hpos : PosCs script) (h : ReachF fc script fs) :
     fs.base.terminated ≤ 1 ∧ fs.base.perr = false ∧ Ev.closeAssertionError ∉ fs.base.log ∧
     (1 ≤ fs.base.terminated → closedAfter fs.base = true) := by
-  have hr := fine_refines hnf hpos h
+  have hr := fine_refines hsd hpos h
   exact ⟨terminate_once hr, backend_protocol hr, (close_assertion_holds hr).1, closed_after hr⟩
 
 /-- a complete fine run of the two players with pre-emptions inside chunk assembly -/
@@ -575,46 +615,46 @@ def exFull : List Nat :=
 holding their own audio, everybody finished -/
 example : ((fineRun exFc exScript exFull).base.players.map (·.written) =
       [[[101, 102], [103, 0]], [[201, 202]]]) ∧
-    (allDone (fineRun exFc exScript exFull).base = true) ∧ NoFail exFc ∧
+    (allDone (fineRun exFc exScript exFull).base = true) ∧ Sound exFc ∧
     (posCsB exScript = true) := by
-  refine ⟨by decide, by decide, ?_, by decide⟩
+  refine ⟨by decide, by decide, Or.inr ?_, by decide⟩
   intro b hb; cases hb
 
 /-- **C17.17 fine_terminal_iff** — a thread can move in the fine system exactly when it can in the
 coarse state (a pull is always possible, a write needs what the coarse write needs): terminal
 states, hence deadlocks, correspond. -/
-theorem fine_terminal_iff {fc : FCfg} {script : List Cmd} {fs : FState} (hnf : NoFail fc)
+theorem fine_terminal_iff {fc : FCfg} {script : List Cmd} {fs : FState} (hsd : Sound fc)
     (hpos : PosCs script) (h : ReachF fc script fs) :
     terminalF fc fs = terminal fc.cfg fs.base :=
-  terminalF_eq fc fs (sim_reach hnf hpos h).2
+  terminalF_eq fc fs (sim_reach hsd hpos h).2
 
 /-- **C17.18 fine_rank_decreases** — every step of every thread of the fine system decreases the
 rank `phiF` = coarse rank + samples of the `play` calls still to be issued + samples still to be
 pulled: no fairness assumption is needed for the fine system either. -/
 theorem fine_rank_decreases {fc : FCfg} {script : List Cmd} {fs fs' : FState} {t : Tid}
-    (hnf : NoFail fc) (hpos : PosCs script) (hr : ReachF fc script fs)
+    (hsd : Sound fc) (hpos : PosCs script) (hr : ReachF fc script fs)
     (h : stepF fc fs t = some fs') : phiF fc fs' < phiF fc fs :=
-  phiF_step hnf hpos hr h
+  phiF_step hsd hpos hr h
 
 /-- **C17.18b fine_steps_bounded** — every fine run is finite: at most the coarse bound plus one
 step for each sample played. -/
-theorem fine_steps_bounded (fc : FCfg) (script : List Cmd) (hnf : NoFail fc) (hpos : PosCs script)
+theorem fine_steps_bounded (fc : FCfg) (script : List Cmd) (hsd : Sound fc) (hpos : PosCs script)
     (sched : List Tid) (h : (runSchedF fc (initF script) sched).2 = []) :
     sched.length ≤ stepBound fc.cfg script + audW script := by
-  have := runSchedF_phiF hnf hpos sched (ReachF.init (fc := fc) (script := script)) h
+  have := runSchedF_phiF hsd hpos sched (ReachF.init (fc := fc) (script := script)) h
   rw [phiF_init] at this
   unfold stepBoundF at this
   omega
 
 /-- **C17.18c fine_maximal_run_exists** — every executed fine schedule can be continued to a state
 where nobody is enabled. -/
-theorem fine_maximal_run_exists (fc : FCfg) (script : List Cmd) (hnf : NoFail fc)
+theorem fine_maximal_run_exists (fc : FCfg) (script : List Cmd) (hsd : Sound fc)
     (hpos : PosCs script) (sched : List Tid) (h : (runSchedF fc (initF script) sched).2 = []) :
     ∃ ext, (runSchedF fc (initF script) (sched ++ ext)).2 = [] ∧
       terminalF fc (runSchedF fc (initF script) (sched ++ ext)).1 = true := by
   have hr : ReachF fc script (runSchedF fc (initF script) sched).1 :=
     reachF_runSchedF sched ReachF.init
-  obtain ⟨ext, h1, h2⟩ := exists_maximalF hnf hpos _ _ hr (Nat.le_refl _)
+  obtain ⟨ext, h1, h2⟩ := exists_maximalF hsd hpos _ _ hr (Nat.le_refl _)
   have happ := runSchedF_append fc sched (initF script) ext h
   exact ⟨ext, by rw [happ]; exact h1, by rw [happ]; exact h2⟩
 
@@ -625,7 +665,7 @@ is enabled at its end then — under the hypotheses of `close_returns_fixed` (re
 variants, any `wait`), or of `close_returns_wait_checked` (repaired `stop()`, nobody paused when
 `close` is called) — the script has completed, `close` has returned, every stream is closed, the
 backend was terminated exactly once and no player is alive. -/
-theorem fine_shutdown (fc : FCfg) (script : List Cmd) (hnf : NoFail fc) (hpos : PosCs script)
+theorem fine_shutdown (fc : FCfg) (script : List Cmd) (hsd : Sound fc) (hpos : PosCs script)
     (hc : Cmd.close ∈ script)
     (hyp : (fc.cfg.fixed = true ∧ fc.cfg.wait = false ∧ ∀ i, Cmd.join i ∉ script) ∨
            NoPause script ∨
@@ -638,11 +678,11 @@ theorem fine_shutdown (fc : FCfg) (script : List Cmd) (hnf : NoFail fc) (hpos : 
       closedAfter (runSchedF fc (initF script) sched).1.base = true ∧
       noneAlive (runSchedF fc (initF script) sched).1.base = true ∧
       (runSchedF fc (initF script) sched).1.base.terminated = 1) := by
-  refine ⟨fine_steps_bounded fc script hnf hpos sched hrun, fun ht => ?_⟩
+  refine ⟨fine_steps_bounded fc script hsd hpos sched hrun, fun ht => ?_⟩
   have hrf : ReachF fc script (runSchedF fc (initF script) sched).1 :=
     reachF_runSchedF sched ReachF.init
-  have hr := fine_refines hnf hpos hrf
-  rw [fine_terminal_iff hnf hpos hrf] at ht
+  have hr := fine_refines hsd hpos hrf
+  rw [fine_terminal_iff hsd hpos hrf] at ht
   have hd : (runSchedF fc (initF script) sched).1.base.mpc = .done := by
     rcases hyp with ⟨hf, hw, hj⟩ | hn | ⟨hf, hu, hj⟩
     · exact close_returns_fixed fc.cfg script _ hf hw hj hr ht
@@ -656,18 +696,18 @@ theorem fine_shutdown (fc : FCfg) (script : List Cmd) (hnf : NoFail fc) (hpos : 
 /-- **C17.19b fine_wait_close_delivers_all** — `wait=True`, no `stop()` call: once `close` has
 returned in the fine system every device stream holds its whole chunk sequence. -/
 theorem fine_wait_close_delivers_all {fc : FCfg} {script : List Cmd} {fs : FState}
-    (hnf : NoFail fc) (hpos : PosCs script) (hw : fc.cfg.wait = true)
+    (hsd : Sound fc) (hpos : PosCs script) (hw : fc.cfg.wait = true)
     (hns : ∀ i, Cmd.ctl .stop i ∉ script) (h : ReachF fc script fs)
     (al : List Bool) (n : Nat) (hc : Ev.closeOk al n ∈ fs.base.log)
     (k : Nat) (p : Player) (hp : fs.base.players[k]? = some p) :
-    p.written = chunksOf p.cs p.audio :=
-  wait_close_delivers_all hw hns (fine_refines hnf hpos h) al n hc k p hp
+    p.written = playChunks p.cs p.audio p.fail :=
+  wait_close_delivers_all hw hns (fine_refines hsd hpos h) al n hc k p hp
 
 /-! ### a played iterable that raises (known finding D21) -/
 
 /-- the code as it is (`dieFixed = false`): `play(it)` with an iterable that raises at its second
 pull, then `close()` (`wait=True`), under the schedule found on the real code by the harness -/
-def dieFc : FCfg := ⟨⟨true, true⟩, [true], false⟩
+def dieFc : FCfg := ⟨⟨true, true, [true]⟩, false⟩
 def dieState : FState := fineRun dieFc [.play [101] 2, .close] [0,0,0,0,0,0,0,0,0, 1,1,1, 0]
 
 /-- **C17.20 die_close_spins** — an iterable that raises kills the player thread before its
@@ -689,26 +729,166 @@ theorem die_close_spins :
 same schedule, continued, runs `close` to its end: the chunks completed before the exception
 were delivered, the stream is closed, the backend terminated once, nobody is alive. -/
 theorem die_fixed_close_returns :
-    let fc : FCfg := ⟨⟨true, true⟩, [true], true⟩
+    let fc : FCfg := ⟨⟨true, true, [true]⟩, true⟩
     let fs := fineRun fc [.play [101, 102, 103] 2, .close]
       [0,0,0,0,0,0,0,0,0, 1,1,1,1,1,1,1,1,1,1,1,1, 0,0,0,0,0]
     (fs.base.log = [.playOk 0, .closeOk [false] 0] ∧ closedAfter fs.base = true ∧
       noneAlive fs.base = true ∧ fs.base.players.map (·.written) = [[[101, 102]]] ∧
       terminalF fc fs = true) := by decide
 
--- PENDING: the general shutdown statement for iterables that raise, with the repair of `run`
--- (`dieFixed = true`): a player whose iterable raises goes to its epilogue as a stopped player
--- does, so `fine_shutdown` should hold without `NoFail`.  Proved today: the delivery invariant
--- `fine_assembly_own_samples` (no hypothesis on the iterables), the refinement and liveness for
--- iterables that do not raise, and the two concrete runs above.
-def fine_shutdown_with_raising_iterables_PENDING : Prop :=
+/-- **C17.21 fine_shutdown_with_raising_iterables** — the general shutdown theorem for iterables
+that raise, with the repair of `run` (`dieFixed = true`: `try … finally` around the loop, what
+/repo has since dd9cc91): for EVERY script that calls `close` (chunk sizes positive, no `join`),
+any number of players, any set of played iterables that raise at their end, repaired `stop()`,
+`wait=False`, EVERY fine schedule (pre-emption between any two pulls): when nobody can move any
+more the script has completed, every device stream is closed, `_threads` is empty and no player
+thread is alive.  A player whose iterable raises goes to its epilogue exactly as one that reached
+the end of its audio does; the coarse system has the exception as a step of its own
+(`stepPlayer`, `write` with nothing left and `fail` set) and `fine_refines` needs no `NoFail`.
+(This was the PENDING statement of round 2; it is an instance of `fine_shutdown`.) -/
+theorem fine_shutdown_with_raising_iterables :
   ∀ (fc : FCfg) (script : List Cmd), fc.dieFixed = true → PosCs script → Cmd.close ∈ script →
     fc.cfg.fixed = true → fc.cfg.wait = false → (∀ i, Cmd.join i ∉ script) →
     ∀ (sched : List Tid), (runSchedF fc (initF script) sched).2 = [] →
       terminalF fc (runSchedF fc (initF script) sched).1 = true →
       (runSchedF fc (initF script) sched).1.base.mpc = .done ∧
       closedAfter (runSchedF fc (initF script) sched).1.base = true ∧
-      noneAlive (runSchedF fc (initF script) sched).1.base = true
+      noneAlive (runSchedF fc (initF script) sched).1.base = true := by
+  intro fc script hd hpos hc hf hw hj sched hrun ht
+  obtain ⟨h1, _, h3, h4, _⟩ :=
+    (fine_shutdown fc script (Or.inl hd) hpos hc (Or.inl ⟨hf, hw, hj⟩) sched hrun).2 ht
+  exact ⟨h1, h3, h4⟩
+
+/-- two players, the first one's iterable raises after three samples (chunks of two: one chunk is
+delivered, the third sample is lost with the exception), the second one is paused when `close`
+comes: a maximal run with pre-emptions inside chunk assembly -/
+def raiseFc : FCfg := ⟨⟨false, true, [true, false]⟩, true⟩
+def raiseScript : List Cmd := [.play [101, 102, 103] 2, .play [201, 202] 2, .ctl .pause 1, .close]
+def raiseSched : List Nat :=
+  [0,0,0,0,0,0,0,0,0,0,0,0,0,0, 1,1, 2,2, 1,1,1, 0,0,0, 2,2, 1,1,1,1,1,1,1, 0,0,0,0,0,0,0,0,0,
+   2,2,2,2,2,2, 0,0,0,0,0]
+
+/-- non-vacuity of `fine_shutdown_with_raising_iterables`: its hypotheses hold on that run, which
+ends with nobody enabled; the first stream received exactly its one complete chunk -/
+example : (runSchedF raiseFc (initF raiseScript) (mkSched raiseSched)).2 = [] ∧
+    terminalF raiseFc (fineRun raiseFc raiseScript raiseSched) = true ∧
+    (fineRun raiseFc raiseScript raiseSched).base.players.map (·.written) = [[[101, 102]], [[201, 202]]] ∧
+    (fineRun raiseFc raiseScript raiseSched).base.log = [.playOk 0, .playOk 1, .ctlOk, .closeOk [false, false] 0] ∧
+    posCsB raiseScript = true := by decide
+
+/-! ### call shapes: `play(audio, **kwargs)` as written and what the backend is asked
+
+`ALV.Spec.C17`: `PlayCall` (each keyword given or omitted), `openArgs` (the `pa.open` call),
+`frames` / `samplesPerChunk` (frames per write, chunk size handed to `chunks`).  The tie sends the
+call as written; the driver resolves the defaults with these functions, so that the chunk size of
+the modelled `Cmd.play` IS `samplesPerChunk`, and compares `openArgs` with what the fake backend
+received. -/
+
+/-- **C17.22 play_defaults** — `play(audio)` with nothing else: float32, one channel, 44100 Hz,
+`chunks.size` frames per buffer and per chunk, the API's default output device if one was chosen -/
+theorem play_defaults (d : Nat) (api : Option Nat) :
+    openArgs d api {} = { format := 1, channels := 1, rate := 44100, framesPerBuffer := d,
+                          output := true, device := api } ∧
+    frames d {} = d ∧ samplesPerChunk d {} = d := by
+  simp [openArgs, frames, samplesPerChunk, fmtCode]
+
+/-- **C17.22b play_omitted_is_default** — omitting a keyword is giving its default: the call as
+written and the call with every default spelled out ask the same of the backend and chunk alike
+(whatever `chunks.size` is at the time of the call) -/
+theorem play_omitted_is_default (d : Nat) (api : Option Nat) (c : PlayCall) :
+    let full : PlayCall := { chunkSize := some (c.chunkSize.getD d), dfmt := some (c.dfmt.getD "f"),
+                             channels := some (c.channels.getD 1), rate := some (c.rate.getD 44100),
+                             device := c.device }
+    openArgs d api c = openArgs d api full ∧ samplesPerChunk d c = samplesPerChunk d full ∧
+    frames d c = frames d full := by
+  simp [openArgs, frames, samplesPerChunk]
+
+/-- **C17.22c explicit_device_wins** — `output_device_index` given by the caller is passed through
+whatever `api` the manager was built with; without it the API's default output device is used; the
+other arguments do not depend on the API at all -/
+theorem explicit_device_wins (d : Nat) (api : Option Nat) (c : PlayCall) (x : Nat) :
+    (openArgs d api { c with device := some x }).device = some x ∧
+    (openArgs d api { c with device := none }).device = api ∧
+    { openArgs d api c with device := none } = { openArgs d none c with device := none } := by
+  simp [openArgs]
+
+/-- **C17.22d frames_per_write** — a chunk has `chunk_size * channels` samples and is written as
+`chunk_size` frames, which is also `frames_per_buffer` of the device stream -/
+theorem frames_per_write (d : Nat) (api : Option Nat) (c : PlayCall) :
+    samplesPerChunk d c = (openArgs d api c).framesPerBuffer * (openArgs d api c).channels ∧
+    (openArgs d api c).framesPerBuffer = frames d c := by
+  simp [openArgs, frames, samplesPerChunk]
+
+example : openArgs 2048 (some 7) { chunkSize := some 2, rate := some 8000, channels := some 2 } =
+    { format := 1, channels := 2, rate := 8000, framesPerBuffer := 2, output := true, device := some 7 } ∧
+    samplesPerChunk 2048 { chunkSize := some 2, channels := some 2 } = 4 ∧
+    samplesPerChunk 3 {} = 3 := by decide
+
+/-! ### recording streams (`AudioIO.record`, `RecStream`, the recordings loop of `close`)
+
+`ALV.Model.C17Rec`: histories of `record` / `take` / `stop` / `close` calls of the control thread.
+The tie runs the same histories on the real code with an input device that delivers known numbers
+and compares every `take` result, the reads issued, the device streams' state and `_recordings`. -/
+
+open ALV.C17Rec in
+/-- **C17.23 rec_delivered_in_order** — for EVERY history: what a recording stream has handed out,
+followed by what it still buffers, is exactly what its device stream delivered in the reads issued
+so far, in order — nothing lost, duplicated or reordered; its device stream was closed at most
+once, and exactly when its generator finished; a finished stream is not recording and buffers
+nothing. -/
+theorem rec_delivered_in_order (cmds : List RCmd) (i : Nat) (r : Rec)
+    (h : (run C17Rec.init cmds).recs[i]? = some r) :
+    r.out ++ r.buf = devData i r.cs r.reads ∧ r.closes ≤ 1 ∧ (r.closes = 1 ↔ r.done = true) ∧
+    (r.done = true → r.recording = false ∧ r.buf = []) := by
+  obtain ⟨h1, h2, h3⟩ := (run_si cmds _ si_init).c.recs i r h
+  refine ⟨h1, ?_, ?_, h3⟩
+  · rw [h2]; split <;> omega
+  · rw [h2]; cases r.done <;> simp
+
+open ALV.C17Rec in
+/-- **C17.23b rec_manager_invariant** — `_recordings` holds exactly the streams whose generator has
+not finished, without repetition; the backend was terminated at most once, and exactly when the
+manager is finished -/
+theorem rec_manager_invariant (cmds : List RCmd) :
+    let s := run C17Rec.init cmds
+    (∀ i, i ∈ s.recordings ↔ ∃ r, s.recs[i]? = some r ∧ r.done = false) ∧ s.recordings.Nodup ∧
+    s.terminated ≤ 1 ∧ (s.terminated = 1 ↔ s.finished = true) := by
+  have inv := run_si cmds _ si_init
+  refine ⟨inv.c.mem, inv.c.nodup, ?_, ?_⟩
+  · rw [inv.term]; split <;> omega
+  · rw [inv.term]; cases (run C17Rec.init cmds).finished <;> simp
+
+open ALV.C17Rec in
+/-- **C17.23c rec_closed_after_close** — once the history contains a `close` (whatever comes before
+or after it: streams never read, read half a chunk, stopped, already finished, `record` after
+`close`): the manager is finished, the backend terminated exactly once, `_recordings` is empty and
+EVERY recording stream ever created has finished, is not recording, and had its device stream
+closed exactly once. -/
+theorem rec_closed_after_close (cmds : List RCmd) (hc : RCmd.close ∈ cmds) :
+    let s := run C17Rec.init cmds
+    s.finished = true ∧ s.terminated = 1 ∧ s.recordings = [] ∧
+    ∀ (i : Nat) (r : Rec), s.recs[i]? = some r →
+      r.done = true ∧ r.closes = 1 ∧ r.recording = false ∧ r.buf = [] := by
+  have inv := run_si cmds _ si_init
+  have hf := run_finished cmds C17Rec.init (Or.inr hc)
+  refine ⟨hf, by rw [inv.term, hf]; rfl, inv.fin hf, fun i r hr => ?_⟩
+  have hd : r.done = true := by
+    cases hd : r.done with
+    | true => rfl
+    | false =>
+      have := (inv.c.mem i).mpr ⟨r, hr, hd⟩
+      rw [inv.fin hf] at this; cases this
+  obtain ⟨_, h2, h3⟩ := inv.c.recs i r hr
+  exact ⟨hd, by rw [h2, hd]; rfl, (h3 hd).1, (h3 hd).2⟩
+
+/-- non-vacuity: two streams (chunks of 3 and of 2), one read into the middle of its second chunk
+and stopped, the other never stopped; `close` drains both, the last one first -/
+example : let s := C17Rec.run C17Rec.init [.record 3, .take 0 4, .record 2, .take 1 1, .stop 0, .take 0 1, .close, .take 1 5, .record 2]
+    (s.log = [.recordOk 0, .took [1000, 1001, 1002, 1003], .recordOk 1, .took [2000], .stopOk,
+              .took [1004], .closeOk, .took [], .recordRefused] ∧
+      s.recs.map (·.out) = [[1000, 1001, 1002, 1003, 1004, 1005], [2000, 2001]] ∧
+      s.recs.map (·.reads) = [2, 1] ∧ s.recs.map (·.closes) = [1, 1] ∧ s.recordings = [] ∧
+      s.terminated = 1) := by decide
 
 /-! ### the deadlock of the code as it is (D10) -/
 
@@ -724,21 +904,21 @@ instance (cfg : Cfg) (s : State) : Decidable (StuckInClose cfg s) := by
 close()` reaches a state in which `close` never returns.  Schedule found on the real code by the
 scheduler harness (19 steps). -/
 theorem deadlock_pause_close :
-    StuckInClose ⟨false, false⟩
-      (runSched ⟨false, false⟩ (init [.play [101] 2, .ctl .pause 0, .close])
+    StuckInClose ⟨false, false, []⟩
+      (runSched ⟨false, false, []⟩ (init [.play [101] 2, .ctl .pause 0, .close])
         (mkSched [0,0,0,0,0,0,0,0,0,0,0,0,1,1,1,1,0,0,0])).1 := by decide
 
 /-- the same with `wait=True` (close joins the paused player without stopping it) -/
 theorem deadlock_pause_close_wait :
-    StuckInClose ⟨true, false⟩
-      (runSched ⟨true, false⟩ (init [.play [101] 2, .ctl .pause 0, .close])
+    StuckInClose ⟨true, false, []⟩
+      (runSched ⟨true, false, []⟩ (init [.play [101] 2, .ctl .pause 0, .close])
         (mkSched [0,0,0,0,0,0,0,0,0,0,0,0,1,1,1,1])).1 := by decide
 
 /-- … and the repaired `stop()` does not change that (`wait=True` never calls `stop()`): known
 finding D10b stays.  `close_returns_wait` states the exact hypothesis this script violates. -/
 theorem deadlock_pause_close_wait_fixed :
-    StuckInClose ⟨true, true⟩
-      (runSched ⟨true, true⟩ (init [.play [101] 2, .ctl .pause 0, .close])
+    StuckInClose ⟨true, true, []⟩
+      (runSched ⟨true, true, []⟩ (init [.play [101] 2, .ctl .pause 0, .close])
         (mkSched [0,0,0,0,0,0,0,0,0,0,0,0,1,1,1,1])).1 := by decide
 
 /-- **C17.6b** the player need not be paused when `close` starts: `pause ; play ; close` deadlocks
@@ -746,13 +926,13 @@ too when the thread had already seen the pause (it tests `halting` before `go.wa
 clears `go` again afterwards).  So "no player is paused when close starts" is NOT sufficient for
 `close` to return in the code as it is. -/
 theorem deadlock_pause_resume_close :
-    StuckInClose ⟨false, false⟩
-      (runSched ⟨false, false⟩ (init [.play [101] 2, .ctl .pause 0, .ctl .resume 0, .close])
+    StuckInClose ⟨false, false, []⟩
+      (runSched ⟨false, false, []⟩ (init [.play [101] 2, .ctl .pause 0, .ctl .resume 0, .close])
         (mkSched [0,0,0,0,0,0,0,0,0,0,1,1,1,1,0,0,0,0,0,0,0,0])).1 := by decide
 
 /-- with the proposed fix (`Cfg.fixed`) the very same schedules run `close` to its end -/
 theorem fixed_pause_close_returns :
-    ((runSched ⟨false, true⟩ (init [.play [101] 2, .ctl .pause 0, .close])
+    ((runSched ⟨false, true, []⟩ (init [.play [101] 2, .ctl .pause 0, .close])
         (mkSched ([0,0,0,0,0,0,0,0,0,0,0,0,1,1,1,1,0,0,0] ++ [1,1,1,1,1,1,0,0,0,0,0]))).1.log
       = [.playOk 0, .ctlOk, .closeOk [false] 0]) := by decide
 
@@ -760,7 +940,7 @@ theorem fixed_pause_close_returns :
 close returns" fails on one window: a player that has already left `_threads` is not joined, and
 may still have its last lock release to do (it is past every backend call: `closed_after`). -/
 theorem alive_after_close_reachable :
-    ((runSched ⟨true, false⟩ (init [.play [101] 2, .close])
+    ((runSched ⟨true, false, []⟩ (init [.play [101] 2, .close])
         (mkSched [0,0,0,0,0,0,0,1,1,1,1,1,1,1,0,0,0,0])).1.log
       = [.playOk 0, .closeOk [true] 0]) := by decide
 
